@@ -5,7 +5,7 @@
 
 #[macro_export]
 macro_rules! c11_radix {
-    ($name:ident, $unw:expr, $T:ty, $D:ty, $N:expr, $R:expr, $MAXD:expr, $STR:expr, $VMAX:expr) => {
+    ($name:ident, $unw:expr, $T:ty, $D:ty, $N:expr, $R:expr, $MAXD:expr, $STR:expr, $VMAX:expr, $RT:expr) => {
         $crate::harness!($name, $unw, {
             use $crate::util::*;
             const W: u32 = <$D>::BITS * $N;
@@ -30,8 +30,10 @@ macro_rules! c11_radix {
             let mut k = 0;
             while k < $MAXD { if k < n { assert!(be[k] == le[n - 1 - k], "to_radix_be is the reverse of to_radix_le"); } k += 1; }
             // round trip
-            match <$T>::from_radix_le(&le, $R) { Some(y) => assert!(deq(&y.dg(), &xd), "from_radix_le(to_radix_le(x)) == x"), None => assert!(false, "round trip rejected") }
-            match <$T>::from_radix_be(&be, $R) { Some(y) => assert!(deq(&y.dg(), &xd), "from_radix_be(to_radix_be(x)) == x"), None => assert!(false, "round trip rejected") }
+            if $RT {
+                match <$T>::from_radix_le(&le, $R) { Some(y) => assert!(deq(&y.dg(), &xd), "from_radix_le(to_radix_le(x)) == x"), None => assert!(false, "round trip rejected") }
+                match <$T>::from_radix_be(&be, $R) { Some(y) => assert!(deq(&y.dg(), &xd), "from_radix_be(to_radix_be(x)) == x"), None => assert!(false, "round trip rejected") }
+            }
             if $STR {
                 let neg = S && dneg(&xd);
                 // non-negative values only here: the negative branch goes through format! (see c11_str_neg)
@@ -44,7 +46,8 @@ macro_rules! c11_radix {
                         if k < n { let d = be[k]; assert!(sb[k] == if d < 10 { b'0' + d } else { b'a' + d - 10 }, "lowercase digit characters"); }
                         k += 1;
                     }
-                    match <$T>::from_str_radix(&s, $R) { Ok(y) => assert!(deq(&y.dg(), &xd), "parse(to_str_radix(x)) == x"), Err(_) => assert!(false, "round trip rejected") }
+                    if $RT { match <$T>::from_str_radix(&s, $R) { Ok(y) => assert!(deq(&y.dg(), &xd), "parse(to_str_radix(x)) == x"), Err(_) => assert!(false, "round trip rejected") } }
+                    core::mem::forget(s);
                 }
             }
             core::mem::forget(le); core::mem::forget(be);
